@@ -176,7 +176,8 @@ class Probe:
 
 def run_ctx(ctx_node, op_builder, items, log, prelude=None):
     """ctx( [ H , op , T(snapshot) , R(raw refs) ] ) on a multiplexed source"""
-    inner_ops = [ttap(log, 'H'), op_builder(), ttap(log, 'T'), ttap(log, 'R', deep=False)]
+    # (behind the taps a stateful pass-through: it fails on an event that lacks the section's store)
+    inner_ops = [ttap(log, 'H'), op_builder(), ttap(log, 'T'), ttap(log, 'R', deep=False), rs.ops.scan(lambda a, i: i, None)]
     if ctx_node is None:
         ops_ = inner_ops
     else:
